@@ -1187,6 +1187,19 @@ pub fn wrath_sample(rep: &mut Rep, rng: &mut Rng, sample: u64, faults_full: bool
                                         let mut reference = client.clone();
                                         let _ = reference.attempt_decrypt_server_header([wire[0], wire[1], wire[2], wire[3]]);
                                         let untouched = obj == reference;
+                                        // meanwhile another connection on this thread decodes a large header of its own, and
+                                        // sometimes it is a copy of the waiting object that receives the fifth byte
+                                        if cuts % 2 == 0 {
+                                            let (mut oc, mut os) = objs::wrath_pair([fi as u8 ^ 0x5c; 40]);
+                                            let w2 = os.encrypt_server_header(0x8000 + off as u32 * 977, 0x1234).to_vec();
+                                            let _ = oc.read_and_decrypt_server_header(&mut &w2[..]);
+                                            let w3 = os.encrypt_server_header(0x123456, 7).to_vec();
+                                            let _ = oc.attempt_decrypt_server_header([w3[0], w3[1], w3[2], w3[3]]);
+                                        }
+                                        if interrupt {
+                                            let copy = obj.clone();
+                                            obj = copy;
+                                        }
                                         let h = guard(|| obj.decrypt_large_server_header(wire[4]));
                                         let mut t = next_wire.clone();
                                         obj.decrypt(&mut t);
